@@ -59,7 +59,27 @@ class C05(Prop):
                     metas.append({"missing": True})
             if ops:
                 out.append({"stream": "ops", "tag": "hist:%d" % len(ops), "input": {"tree": t, "mode": mode, "ops": ops, "metas": metas}})
+        self._exh = None
+        if tier == "thorough":
+            n_trees = n_cases = 0
+            style = 0
+            for nodes in range(2, 6):
+                for t in X.all_trees(nodes, root="dict"):
+                    n_trees += 1
+                    for path, _v in X.node_paths(t):
+                        for kind in ("del", "pop"):
+                            for rc in (False, True):
+                                style = (style + 1) % 6
+                                op = [kind, X.render(t, path, rng, style=style), rc] + (["none"] if kind == "pop" else [])
+                                out.append({"stream": "ops", "tag": "exh:" + kind,
+                                            "input": {"tree": t, "mode": "convert", "ops": [op], "metas": [{"path": list(path)}]}})
+                                n_cases += 1
+            self._exh = {"exhaustive_scopes": ["every dict-rooted tree with <= 5 nodes over keys {a,b}, leaves {1,'x'} (%d trees): every "
+                                               "node x delete/pop x recursively on/off (%d operations)" % (n_trees, n_cases)]}
         return out
+
+    def extra_evidence(self):
+        return getattr(self, "_exh", None) or {}
 
     def run_impl(self, case):
         i = case["input"]
